@@ -33,7 +33,10 @@ func scaffold() map[string]any {
 	}
 }
 
-func accepted(sec, id string, ws []Write) bool {
+// accepted: the component (or service section) alone loads and validates.
+// A PANIC is neither: it is a violation in its own right (a document must be
+// loaded or rejected with an error), returned as a finding and never cached.
+func accepted(where, sec, id string, ws []Write) (bool, *vt.Finding) {
 	kb, _ := json.Marshal(struct {
 		S, I string
 		W    []Write
@@ -43,7 +46,7 @@ func accepted(sec, id string, ws []Write) bool {
 	v, ok := guardCache[key]
 	guardMu.Unlock()
 	if ok {
-		return v
+		return v, nil
 	}
 	doc := scaffold()
 	if sec == secService {
@@ -60,20 +63,38 @@ func accepted(sec, id string, ws []Write) bool {
 		sm[id] = compBody(ws)
 	}
 	l := loadDoc(doc, false)
-	v = l.panicV == nil && l.err() == nil
+	if l.panicV != nil {
+		text, _ := render(doc)
+		return false, vt.Failf("panic/load/"+where, "loading/validating %s alone panicked instead of loading or returning an error: %v\ndocument: %s\n%s", where, l.panicV, text, l.stack)
+	}
+	v = l.err() == nil
 	guardMu.Lock()
 	if len(guardCache) < 200000 {
 		guardCache[key] = v
 	}
 	guardMu.Unlock()
-	return v
+	return v, nil
 }
 
 // guard returns the writes of one component that survive the acceptance
 // guard.  ok=false: even the required settings alone are rejected.
-func guard(c *vt.C, kind *compKind, sec, id string, ws []Write) (kept []Write, ok bool) {
-	if len(ws) == 0 || accepted(sec, id, ws) {
-		return ws, true
+func guard(c *vt.C, kind *compKind, sec, id string, ws []Write) (kept []Write, ok bool, pf *vt.Finding) {
+	if len(ws) == 0 {
+		return ws, true, nil
+	}
+	acc := func(ws []Write) bool {
+		if pf != nil {
+			return false
+		}
+		var v bool
+		v, pf = accepted(kind.name(), sec, id, ws)
+		return v
+	}
+	if acc(ws) {
+		return ws, true, nil
+	}
+	if pf != nil {
+		return nil, false, pf
 	}
 	var base []Write
 	units := map[string][]Write{}
@@ -89,25 +110,33 @@ func guard(c *vt.C, kind *compKind, sec, id string, ws []Write) (kept []Write, o
 		}
 		units[u] = append(units[u], x)
 	}
-	if !accepted(sec, id, base) {
+	if !acc(base) {
+		if pf != nil {
+			return nil, false, pf
+		}
 		c.Exclude("guard: required settings rejected: " + kind.name())
-		return nil, false
+		return nil, false, nil
 	}
 	kept = append(kept, base...)
 	for _, u := range order {
-		if accepted(sec, id, append(append([]Write{}, base...), units[u]...)) {
+		if acc(append(append([]Write{}, base...), units[u]...)) {
 			kept = append(kept, units[u]...)
+		} else if pf != nil {
+			return nil, false, pf
 		} else {
 			c.Exclude("guard: unit dropped: " + kind.name() + " " + u)
 		}
 	}
 	sort.SliceStable(kept, func(i, j int) bool { return kept[i].key() < kept[j].key() })
-	if !accepted(sec, id, kept) {
+	if !acc(kept) {
+		if pf != nil {
+			return nil, false, pf
+		}
 		// individually accepted units that do not go together: a coupling the generator does not know
 		c.Exclude("guard: interaction, optional settings dropped: " + kind.name())
-		return base, true
+		return base, true, nil
 	}
-	return kept, true
+	return kept, true, nil
 }
 
 // ---------------------------------------------------------------------------
@@ -503,13 +532,19 @@ func evaluate(c *vt.C, in Script) (nontrivial bool, key string, f *vt.Finding) {
 			c.Exclude("harness: unknown component kind in script")
 			return false, key, nil
 		}
-		ws, ok := guard(c, k, s.Comps[i].Sec, s.Comps[i].ID(), s.Comps[i].W)
+		ws, ok, pf := guard(c, k, s.Comps[i].Sec, s.Comps[i].ID(), s.Comps[i].W)
+		if pf != nil {
+			return true, key, pf
+		}
 		if !ok {
 			return false, key, nil
 		}
 		s.Comps[i].W = ws
 	}
-	svc, ok := guard(c, serviceKind, secService, "", s.Svc)
+	svc, ok, pf := guard(c, serviceKind, secService, "", s.Svc)
+	if pf != nil {
+		return true, key, pf
+	}
 	if !ok {
 		return false, key, nil
 	}
@@ -518,7 +553,7 @@ func evaluate(c *vt.C, in Script) (nontrivial bool, key string, f *vt.Finding) {
 	// 1. the valid configuration
 	l := loadDoc(s.baseDoc(), true)
 	if l.panicV != nil {
-		return true, key, vt.Failf("panic/load", "loading a valid configuration panicked: %v\n%s", l.panicV, l.stack)
+		return true, key, vt.Failf("panic/load/composition", "loading a valid configuration panicked: %v\n%s", l.panicV, l.stack)
 	}
 	if l.loadErr != nil {
 		// every component was accepted alone through the same path
@@ -632,7 +667,7 @@ func evaluate(c *vt.C, in Script) (nontrivial bool, key string, f *vt.Finding) {
 		nontrivial = true
 	}
 	if v.panicV != nil {
-		return true, key, vt.Failf("panic/load", "loading the configuration with one mistake (%s) panicked: %v\n%s", s.M, v.panicV, v.stack)
+		return true, key, vt.Failf("panic/load/mistake:"+s.M.Kind, "loading the configuration with one mistake (%s) panicked: %v\n%s", s.M, v.panicV, v.stack)
 	}
 	err := v.err()
 	if err == nil {
